@@ -43,8 +43,10 @@ def configs(thorough: bool) -> list:
             ("seqs", dict(fams=q(ALLFAMS), nsers="0,1,3", catsel="3,7", xysel="1,4,5", L=3, fmt="all", reopen="end", rmod=2, corpussel=0)),
             ("corpus", dict(fams='"corpus"', nsers="0,1,2,5", catsel="2,4,7", xysel="1,3,4,5", L=2, fmt="none", reopen="end", rmod=3, corpussel=0)),
             ("multi", dict(fams='"corpus"', nsers="1,2,3,4,5,6,7", catsel="2,5", xysel="1", L=2, fmt="none", reopen="end", rmod=1, corpussel=100000)),
-            ("staged", dict(fams=q(ALLFAMS), nsers="1,2,3", catsel="2,3,4,5,7,9", xysel="3,4,5,6", L=2, fmt="none", reopen="end", rmod=2, corpussel=0,
-                            hows='"staged", "fresh"')),
+            ("staged", dict(fams=q(ALLFAMS), nsers="1,3", catsel="2,3,4,5,7,9", xysel="3,4,5,6", L=1, fmt="none", reopen="end", rmod=2, corpussel=0,
+                            hows='"staged"')),
+            ("staged2", dict(fams=q(["bar", "line", "pie", "xy", "bubble"]), nsers="1,3", catsel="3,5,9", xysel="4,5", L=2, fmt="none", reopen="end", rmod=2,
+                             corpussel=0, hows='"staged", "fresh"')),
         ]
     return [
         ("pairs", dict(fams=q(ALLFAMS), nsers="0,1,3", catsel="1,2,3,4,5,6,7,8,9,10", xysel="1,2,3,4,5,6", L=1, fmt="all", reopen="end", rmod=5,
@@ -57,8 +59,8 @@ def configs(thorough: bool) -> list:
         # more than ten series (c:idx / c:order cross a decimal-digit boundary): grow to 12, shrink from 12, 12 -> 11
         ("wide", dict(fams=q(["bar", "line", "xy"]), nsers="1,11,12", catsel="1", xysel="7,9", L=1, fmt="none", reopen="end", rmod=1, corpussel=0)),
         # one chart-data object rendered when half built, then completed (ReplaceData with the completed object)
-        ("staged", dict(fams=q(["bar", "line", "pie", "xy", "bubble"]), nsers="1,3", catsel="3,4,5,9", xysel="4,5", L=1, fmt="none", reopen="none",
-                        rmod=1, corpussel=0, hows='"staged"')),
+        ("staged", dict(fams=q(["bar", "line", "pie", "xy", "bubble"]), nsers="1,3", catsel="3,4,5,9", xysel="4,5", L=1, fmt="none", reopen="end",
+                        rmod=2, corpussel=0, hows='"staged"')),
     ]
 
 
